@@ -350,7 +350,7 @@ def _hyp_shard(sub, i):
 
 
 def run(ctx):
-    maxlen = ctx.pick(3, 5)
+    maxlen = ctx.pick(3, 4)
     n = ctx.pick(2, 16)
     ctx.shards(_enum_shard, [(i, n, maxlen) for i in range(n)])
     ctx.extra["complete_histories_up_to_length"] = maxlen
